@@ -67,6 +67,7 @@ REQUIRED_THEOREMS = [
     "call_binding",
     "center_delegates",
     "live_signatures",
+    "structured_parts_ready",
 ]
 TRUSTED = [
     "parameters of the model, taken from the implementation per case and not verified: the meaning of each factor "
@@ -88,6 +89,10 @@ TRUSTED = [
     "the statistics of a scale-family call on a 2-D array (numpy arrays in the recorded state; a 0-d value applies to "
     "every column) are kept column by column in the model (TState.arr); recorded arrays whose length is not the width "
     "of the data (numpy broadcasting) are outside the model",
+    "get_model_matrix on a ModelSpecs is modelled part by part under the pooled transform state (materializeParts: the "
+    "pool is built by materialising the parts in order; the code evaluates the union of the factors once); contr.poly "
+    "(orthonormal polynomial coding) has no semantics in this model: such cases are checked by the oracle only; the "
+    "dtype of a categorical column at replay (declared order, ordered flag) is not an input of the model",
     "pandas row labels are not part of the model (a frame is a list of rows): outputs are compared by position, so any "
     "influence of labels on values is a disagreement",
     "C(A, levels=[…]): the nominated levels are modelled as categories declared for the column (in the code they also "
@@ -126,6 +131,14 @@ RULE = (
     "non-default row labels, follow-ups by .iloc incl. the complement of the training rows. Stream `session`: two specs "
     "with shared factor expressions fitted on two folds, ONE materializer object, 2-4 calls of which some raise (bs "
     "out of range, unseen level with warnings as errors, missing column), each compared with the call on a new object. "
+    "Stream `parts`: STRUCTURED formulas (`lhs ~ a | b`, 1-3 right-hand parts, stateful left-hand sides) whose factors "
+    "contain NESTED stateful calls (bs(center(x)), poly(scale(x)), cr(center(y)), I(center(x) * 2), I(scale(x) + scale(y)), "
+    "exp(center(x)), scale(bs(x))), fitted jointly, replayed on other rows through the joint ModelSpecs, one part's spec "
+    "alone, pickled copies; oracle: every part's transform_state has an entry for every stateful call found in the syntax "
+    "tree of its factor expressions, and every part replays row by row. Stream `dtype` (+35% of ordinary follow-ups): the "
+    "same cell values with the categorical columns stored as a Categorical over the recorded levels DECLARED in another "
+    "order (sorted by astype('category'), reversed, rotated, ordered) or as text, for every coding incl. contr.poly and "
+    "interactions; oracle: equal to the dtype-blind twin (columns given as plain text) and to the expected rows. "
     "Streams `dict` / `sparse`: the decorator called directly on dicts of columns / scipy.sparse matrices. "
     "non-trivial = a stateful transform or a categorical factor and at least one follow-up that is not the training "
     "frame (session: both specs called); distinct by canonical JSON"
@@ -544,6 +557,22 @@ def add_option_followups(rng, case):
     return case
 
 
+REDECLARE = ["sorted", "reversed", "rotated", "ordered_reversed", "text"]
+
+
+def add_redeclared_followups(rng, case, p=0.35):
+    """follow-up data whose categorical columns hold the same values under another dtype: a Categorical over the same
+    levels declared in another order (sorted by `.astype('category')`, reversed, rotated, ordered), or plain text"""
+    if not case["cat"]:
+        return case
+    for fu in list(case["followups"]):
+        if in_domain(fu) and not fu.get("output") and rng.random() < p:
+            cols = [k for k in case["cat"] if rng.random() < 0.8] or [sorted(case["cat"])[0]]
+            case["followups"].append(dict(rows=fu["rows"], route=rng.choice(["spec", "spec", "pickle", "sugar", "deepcopy"]),
+                                          redeclare={k: rng.choice(REDECLARE) for k in cols}))
+    return case
+
+
 def in_domain(fu):
     """does the property speak about this follow-up? (a valid output override is in; the rest is not)"""
     return not (fu.get("drop") or fu.get("swap") or fu.get("edit") or fu.get("output") == "bogus")
@@ -847,6 +876,170 @@ def gen_sparse_case(rng):
     return dict(kind="sparse", n=n, cols=cols, tr=e["tr"], followups=fus)
 
 
+def gen_dtype_case(rng, tier):
+    """CATEGORICAL DTYPE IS NOT AN INPUT OF A REPLAY: a categorical column (3-4 levels; declared in the training frame
+    in a non-sorted order, or plain text there), every built-in coding, alone and in interactions; every follow-up stores
+    the same cell values as a Categorical over the same levels declared in ANOTHER order (or as text)."""
+    n, num, cat, train = gen_pool(rng, tier)
+    for name, ci in cat.items():
+        pool_ = next(pl for pl in LEVEL_POOLS if ci["levels"][0] in pl)
+        while len(ci["levels"]) < 3:
+            ci["levels"] = list(ci["levels"]) + [x for x in pool_ if x not in ci["levels"]][:1]
+        nl = len(ci["levels"])
+        for k, i in enumerate(train):  # every level occurs in the training rows
+            if k < nl:
+                ci["codes"][i] = k
+        ci["codes"] = [cd if cd < nl else rng.randrange(nl) for cd in ci["codes"]]
+        if rng.random() < 0.6:
+            ci["declared"] = True
+            lv = list(ci["levels"])
+            perm = list(range(nl))
+            rng.shuffle(perm)  # declared order of the training frame: not the sorted one most of the time
+            ci["levels"] = [lv[k] for k in perm]
+            inv = {old: new for new, old in enumerate(perm)}
+            ci["codes"] = [inv[cd] for cd in ci["codes"]]
+        ci["train_levels"] = list(ci["levels"]) if ci["declared"] else \
+            [ci["levels"][k] for k in sorted({ci["codes"][i] for i in train})]
+    atoms = {}
+    terms = []
+    for _ in range(rng.randint(1, 3)):
+        v = rng.choice(sorted(cat))
+        cn = rng.choice(["bare", "treatment", "sum", "helmert", "poly", "SAS", "diff"])
+        if cn == "bare":
+            src, sem = v, dict(k="cat", var=v, contrast=dict(c="treatment", base=None), viaC=False)
+        else:
+            con = dict(c=cn, base=None)
+            if cn == "helmert":
+                con.update(reverse=True, scale=False)
+            if cn == "diff":
+                con.update(backward=True)
+            src, sem = f"C({v}, contr.{cn})", dict(k="cat", var=v, contrast=con, viaC=True)
+        atoms[src] = sem
+        r = rng.random()
+        if r < 0.45:
+            t = src
+        elif r < 0.75:
+            z = rng.choice(["x", "y", "p"])
+            atoms[z] = dict(k="num", e=col(z))
+            t = rng.choice([f"{src}:{z}", f"{src}*{z}"])
+        else:
+            zs, ze = set_text(*gen_scale_call(rng, "x", col("x")))
+            atoms[zs] = dict(k="num", e=ze)
+            t = f"{src}:{zs}"
+        if t not in terms:
+            terms.append(t)
+    fus = [dict(rows=list(train), route="spec")]
+    for _ in range(rng.randint(3, 5)):
+        k = rng.random()
+        rows = sorted(rng.sample(range(n), rng.randint(2, n))) if k < 0.5 else \
+            ([rng.randrange(n) for _ in range(rng.randint(2, n))] if k < 0.8 else list(train))
+        fus.append(dict(rows=rows, route=rng.choice(["spec", "spec", "pickle", "pickle", "sugar", "mm", "deepcopy"]),
+                        redeclare={kk: rng.choice(REDECLARE) for kk in cat}))
+    return dict(kind="replay", n=n, num=num, cat={k: dict(v) for k, v in cat.items()}, train=train,
+                formula=rng.choice(["", "", "0 + "]) + " + ".join(terms), atoms=atoms, efr=rng.random() < 0.8,
+                output=rng.choice(["pandas", "pandas", "numpy", "sparse"]), cluster=False, followups=fus,
+                index=gen_index(rng, n) if rng.random() < 0.3 else None)
+
+
+def gen_nested_atom(rng):
+    """a factor in which a stateful call is NESTED inside a larger expression: (source, expr, modelled?)"""
+    v = rng.choice(["x", "y"])
+    inner_s, inner = set_text(*gen_scale_call(rng, v, col(v)))
+    k = rng.random()
+    if k < 0.25:
+        dg = rng.choice([1, 2, 3])
+        df_ = dg + rng.choice([0, 1, 2])
+        src = f"bs({inner_s}, df={df_}" + (f", degree={dg}" if dg != 3 else "") + ", extrapolation='clip')"
+        e = call(src, dict(kind="bs", df=df_, knots=None, degree=dg, intercept=False, lower=None, upper=None, mode="clip"),
+                 inner, fn="bs", kw=dict(df=df_, extrapolation="clip", **({"degree": dg} if dg != 3 else {})))
+        return src, e
+    if k < 0.4:
+        return set_text(*gen_poly_call(rng, inner_s, inner))
+    if k < 0.5:
+        df_ = rng.choice([2, 3, 4])
+        src = f"cr({inner_s}, df={df_})"
+        return src, call(src, dict(kind="cs", df=df_, knots=None, lower=None, upper=None, constraints=None, cyclic=False,
+                                   mode="extend"), inner, fn="cr", kw=dict(df=df_))
+    if k < 0.65:
+        c_ = rng.choice([2, 3, -1])
+        op, sym = rng.choice([("mul", "*"), ("add", "+")])
+        return f"I({inner_s} {sym} {c_})", binc(op, inner, c_)
+    if k < 0.8:
+        w = "y" if v == "x" else "x"
+        other_s, other = set_text(*gen_scale_call(rng, w, col(w)))
+        op, sym = rng.choice([("mul", "*"), ("add", "+"), ("sub", "-")])
+        return f"I({inner_s} {sym} {other_s})", bin_(op, inner, other)
+    if k < 0.9:  # a function of a centred column: its values are not supplied to the model (oracle only)
+        fn = rng.choice(["exp", "np.exp"])
+        return f"{fn}({inner_s})", elem("exp", inner)
+    g = rng.choice([gen_bs_call, gen_poly_call])  # a mapped call over a multi-column value
+    ms, me = set_text(*g(rng, v, col(v)))
+    return set_text(*gen_scale_call(rng, ms, me))
+
+
+def gen_parts_case(rng, tier):
+    """STRUCTURED formulas (`lhs ~ a | b`: the spec is a ModelSpecs) whose factors contain NESTED stateful calls;
+    fitted on one frame, then the attached specs replayed on other rows — through the joint ModelSpecs, through one
+    part's spec alone, through pickled copies.  Every part must apply the statistics recorded at fit time: its
+    transform_state has an entry for every stateful call its factors contain, nested ones included."""
+    n, num, cat, train = gen_pool(rng, tier)
+    atoms = {}
+
+    def side(nterms):
+        ts = []
+        for _ in range(nterms):
+            r = rng.random()
+            if r < 0.6:
+                s_, e = gen_nested_atom(rng)
+                atoms[s_] = dict(k="num", e=e)
+            elif r < 0.75 and cat:
+                s_, sem = gen_cat_atom(rng, sorted(cat), cat)
+                if sem.get("levels"):
+                    continue
+                atoms[s_] = sem
+            elif r < 0.9:
+                s_, e = set_text(*gen_scale_call(rng, "p", col("p")))
+                atoms[s_] = dict(k="num", e=e)
+            else:
+                s_ = rng.choice(["x", "y", "p"])
+                atoms[s_] = dict(k="num", e=col(s_))
+            if s_ not in ts:
+                ts.append(s_)
+        return " + ".join(ts) if ts else "x"
+
+    r = rng.random()
+    if r < 0.4:
+        lhs = "y"
+        atoms["y"] = dict(k="num", e=col("y"))
+    elif r < 0.8:
+        lhs, e = set_text(*gen_scale_call(rng, "y", col("y")))
+        atoms[lhs] = dict(k="num", e=e)
+    else:
+        lhs, e = gen_nested_atom(rng)
+        atoms[lhs] = dict(k="num", e=e)
+    nparts = rng.choice([1, 1, 2, 2, 3])
+    rhs = " | ".join(side(rng.randint(1, 2)) for _ in range(nparts))
+    if "x" in rhs.split(" + ") or rhs == "x":
+        atoms.setdefault("x", dict(k="num", e=col("x")))
+    atoms.setdefault("x", dict(k="num", e=col("x")))
+    fus = [dict(rows=list(train), part=None, pickle=False)]
+    rest = [i for i in range(n) if i not in train]
+    for _ in range(rng.randint(3, 6)):
+        k = rng.random()
+        if k < 0.35 and rest:
+            rows = list(rest)
+            rng.shuffle(rows)
+        elif k < 0.7:
+            rows = rng.sample(range(n), rng.randint(1, n))
+        else:
+            rows = [rng.randrange(n) for _ in range(rng.randint(1, n))]
+        fus.append(dict(rows=rows, part=rng.choice([None, None, 0, 1, nparts]), pickle=rng.random() < 0.4))
+    return dict(kind="parts", n=n, num=num, cat={k: dict(v) for k, v in cat.items()}, train=train,
+                formula=f"{lhs} ~ {rhs}", atoms=atoms, efr=rng.random() < 0.8,
+                output=rng.choice(["pandas", "pandas", "numpy", "sparse"]), cluster=False, followups=fus,
+                index=gen_index(rng, n) if rng.random() < 0.3 else None)
+
+
 def gen_dict_case(rng):
     """the decorator's loop over dict-valued data, called directly (`center` / `scale` on a dict of columns)"""
     n = rng.randint(2, 8)
@@ -870,9 +1063,13 @@ def cases(rng, tier):
             c["index"] = gen_index(rng, c["n"])
         if rng.random() < 0.1:
             c["output"] = None  # the materializer's default output (`_prepare_model_specs`)
-        yield add_option_followups(rng, c)
+        yield add_option_followups(rng, add_redeclared_followups(rng, c))
     for _ in range(max(40, n // 5)):
-        yield add_option_followups(rng, gen_index_case(rng, tier))
+        yield add_option_followups(rng, add_redeclared_followups(rng, gen_index_case(rng, tier)))
+    for _ in range(max(30, n // 6)):
+        yield gen_dtype_case(rng, tier)
+    for _ in range(max(30, n // 6)):
+        yield gen_parts_case(rng, tier)
     for _ in range(max(40, n // 5)):
         yield gen_session_case(rng, tier)
     for _ in range(max(20, n // 6)):
@@ -886,6 +1083,8 @@ def describe(c):
         return "dict-valued data"
     if c["kind"] == "sparse":
         return f"sparse matrix, {len(c['cols'])} column(s)"
+    if c["kind"] == "parts":
+        return "structured formula, nested stateful calls"
     if c["kind"] == "session":
         return "session:" + "".join(("S" if cl["strict"] else "s") + str(cl["spec"]) for cl in c["calls"])
     f = c["formula"]
@@ -906,6 +1105,8 @@ def nontrivial(c):
         return True
     if c["kind"] == "session":
         return len({cl["spec"] for cl in c["calls"]}) > 1
+    if c["kind"] == "parts":
+        return any(fu["rows"] != c["train"] for fu in c["followups"])
     stateful = any(t in c["formula"] for t in ("center", "scale", "standardize", "poly", "bs(", "cr(", "cs(", "cc(")) or bool(c["cat"])
     return stateful and any(fu["rows"] != c["train"] for fu in c["followups"])
 
@@ -1146,8 +1347,30 @@ def apply_edit(sp, expr, op):
     return sp.update(encoder_state=st), new
 
 
-def followup_frame(c, fu, pool):
+def redeclared(series, how, levels):
+    """the same cell values, stored as a pandas Categorical over the same set of levels DECLARED in another order
+    (or as plain text): nothing a replay may depend on"""
+    vals = list(series)
+    if how == "text":
+        return pandas.Series(vals, index=series.index, dtype=object)
+    if how == "sorted":  # re-read as text, then `.astype("category")`: categories sorted
+        return pandas.Series(vals, index=series.index, dtype=object).astype("category")
+    lv = list(levels)
+    order = {"reversed": lv[::-1], "rotated": lv[1:] + lv[:1], "ordered_reversed": lv[::-1]}[how]
+    return pandas.Series(pandas.Categorical(vals, categories=order, ordered=(how == "ordered_reversed")), index=series.index)
+
+
+def followup_frame(c, fu, pool, twin=False):
     df = pool.iloc[fu["rows"]]
+    if fu.get("redeclare"):
+        df = df.copy()
+        for col_, how in fu["redeclare"].items():
+            ci = c["cat"][col_]
+            # exactly the recorded set of levels (those of the training column) whenever the rows carry no other
+            base = ci.get("train_levels") or ci["levels"]
+            if any(v not in base for v in df[col_]):
+                base = ci["levels"]
+            df[col_] = redeclared(df[col_], "text" if twin else how, base)
     if fu.get("drop"):
         df = df.drop(columns=[fu["drop"]])
     if fu.get("swap"):
@@ -1160,10 +1383,10 @@ def followup_frame(c, fu, pool):
     return df
 
 
-def run_followup(c, fu, mm, spec, pool, cache, info):
+def run_followup(c, fu, mm, spec, pool, cache, info, twin=False):
     from formulaic import model_matrix
 
-    df = followup_frame(c, fu, pool)
+    df = followup_frame(c, fu, pool, twin=twin)
     route = fu["route"]
     plain = not (fu.get("edit") or fu.get("output"))
     if plain and route == "sugar":
@@ -1375,7 +1598,114 @@ def impl_sparse(c):
     return out
 
 
+def stateful_keys_of(expr):
+    """the transform_state keys of the stateful calls that occur in a factor expression, nested ones included (found in
+    the Python syntax tree of the expression, independently of the library's own walk)"""
+    import ast
+
+    from formulaic.transforms import TRANSFORMS
+    from formulaic.utils.code import format_expr
+
+    keys = []
+    try:
+        tree = ast.parse(expr, mode="eval")
+    except SyntaxError:
+        return keys
+    for node in ast.walk(tree):
+        if isinstance(node, ast.Call):
+            f = TRANSFORMS.get(ast.unparse(node.func))
+            if getattr(f, "__is_stateful_transform__", False):
+                keys.append(format_expr(node).replace('"', r'\\\\"'))
+    return sorted(set(keys))
+
+
+def impl_parts(c):
+    from formulaic import Formula, model_matrix
+    from formulaic.utils.code import format_expr
+
+    warnings.simplefilter("ignore")
+    pool = make_pool(c)
+    out = {}
+    exprs = {}
+    for src in c["atoms"]:
+        try:
+            exprs[src] = list(Formula("0 + " + src))[0].factors[0].expr
+        except Exception as e:
+            return dict(error="atom:" + type(e).__name__, msg=str(e)[:200])
+    out["exprs"] = exprs
+    calls_ = []
+    for sem in c["atoms"].values():
+        if sem.get("k") == "num":
+            walk_calls(sem["e"], calls_)
+    out["norm"] = sorted({(e["text"], format_expr(e["text"])) for e in calls_})
+    out["elem"] = elem_table(c)
+    outp = c["output"] or "pandas"
+    try:
+        with numpy.errstate(all="ignore"):
+            mms = model_matrix(c["formula"], pool.iloc[c["train"]], ensure_full_rank=c["efr"], output=c["output"])
+    except Exception as e:
+        return dict(out, fit=dict(error=type(e).__name__, msg=str(e)[:300]))
+    specs = mms.model_spec
+    flat_m = list(mms._flatten())
+    flat_s = list(specs._flatten())
+
+    def part_obs(m, sp):
+        o = mat_obs(m, outp)
+        o["spec"] = spec_obs(sp)
+        o["tstate_keys"] = sorted(sp.transform_state)
+        o["expected_keys"] = sorted({k for t in sp.formula for f in t.factors for k in stateful_keys_of(f.expr)})
+        return o
+
+    out["terms"] = [[[dict(x=f.expr, m=f.eval_method.value) for f in t.factors] for t in sp.formula] for sp in flat_s]
+    out["fit"] = dict(parts=[part_obs(m, sp) for m, sp in zip(flat_m, flat_s)])
+    roots = []
+    for sp in flat_s:
+        for st in sp.transform_state.values():
+            _roots_of(st, roots)
+    out["roots"] = [ffs(r) for r in roots if math.isfinite(r)]
+    params = {}
+    for sp in flat_s:
+        for k, st in sp.transform_state.items():
+            params.setdefault(k, node_params(st))
+    out["params"] = params
+    before = [repr(spec_obs(sp)) for sp in flat_s]
+
+    def replay(rows, part, pickled):
+        df = pool.iloc[rows]
+        ss = pickle.loads(pickle.dumps(specs)) if pickled else specs
+        with numpy.errstate(all="ignore"):
+            if part is None:
+                r = ss.get_model_matrix(df)
+                return [part_obs(m, m.model_spec) for m in r._flatten()]
+            sp = list(ss._flatten())[part]
+            m = sp.get_model_matrix(df)
+            return [part_obs(m, m.model_spec)]
+
+    ref = []
+    for i in range(c["n"]):
+        try:
+            ref.append(dict(parts=[dict(names=p["names"], row=p["rows"][0] if p["rows"] else None, nrows=p["shape"][0])
+                                   for p in replay([i], None, False)]))
+        except Exception as e:
+            ref.append(dict(error=type(e).__name__, msg=str(e)[:120]))
+    out["ref"] = ref
+    reps = []
+    for fu in c["followups"]:
+        part = fu["part"]
+        if part is not None and part >= len(flat_s):
+            part = len(flat_s) - 1
+        try:
+            reps.append(dict(part=part, parts=replay(fu["rows"], part, fu["pickle"])))
+        except Exception as e:
+            reps.append(dict(part=part, error=type(e).__name__, msg=str(e)[:200]))
+    out["replays"] = reps
+    out["state_unchanged"] = [repr(spec_obs(sp)) == b for sp, b in zip(flat_s, before)]
+    return out
+
+
 def impl(c):
+    if c["kind"] == "parts":
+        return impl_parts(c)
     if c["kind"] == "dict":
         return impl_dict(c)
     if c["kind"] == "sparse":
@@ -1445,6 +1775,14 @@ def impl(c):
                 m2 = run_followup(c, fu, mm, spec, pool, cache, info)
             o2 = mat_obs(m2, fu.get("output") or c["output"] or "pandas")
             o2["spec_same"] = repr(spec_obs(m2.model_spec)) == before
+            if fu.get("redeclare"):
+                # dtype-blind twin: the same cell values with the categorical columns given as plain text
+                try:
+                    with numpy.errstate(all="ignore"):
+                        t2 = run_followup(c, dict(fu, route="spec"), mm, spec, pool, {}, dict(exprs=exprs, edits=[]), twin=True)
+                    o2["twin"] = mat_obs(t2, fu.get("output") or c["output"] or "pandas")
+                except Exception as e:
+                    o2["twin"] = dict(error=type(e).__name__, msg=str(e)[:200])
             reps.append(o2)
         except Exception as e:
             reps.append(dict(error=type(e).__name__, msg=str(e)[:200]))
@@ -1558,7 +1896,34 @@ def _fu_json(c, o, k, fu):
     return d
 
 
+def request_parts(c, o):
+    if "harness_exception" in o or "error" in o or "terms" not in o or "error" in o.get("fit", {}):
+        return dict(op="noop")
+    columns = list(c["num"]) + list(c["cat"])
+    pool = []
+    for i in range(c["n"]):
+        row = [c["num"][k][i] for k in c["num"]]
+        for k, ci in c["cat"].items():
+            row.append(cell_json(ci["levels"][ci["codes"][i]]))
+        pool.append(row)
+    fo = dict(params=o.get("params", {}), terms=[t for part in o["terms"] for t in part])
+    fus = []
+    nparts = len(o["terms"])
+    for fu in c["followups"]:
+        part = fu["part"]
+        if part is not None and part >= nparts:
+            part = nparts - 1
+        fus.append(dict(rows=fu["rows"], part=part, pickle=fu["pickle"]))
+    return dict(op="parts", columns=columns, pool=pool,
+                declared=[[k, [lab(x) for x in ci["levels"]]] for k, ci in c["cat"].items() if ci["declared"]],
+                factors=_env_json(c, o, fo), norm=[list(p) for p in o.get("norm", [])], elem=o.get("elem", []),
+                roots=o.get("roots", []), parts=[[[f["x"] for f in t] for t in part] for part in o["terms"]],
+                efr=c["efr"], output=c["output"], cluster=c["cluster"], train=c["train"], followups=fus)
+
+
 def request(c, o):
+    if c["kind"] == "parts":
+        return request_parts(c, o)
     if c["kind"] == "sparse":
         return dict(op="sparse", tr=c["tr"], roots=o.get("roots", []), cols=c["cols"], followups=c["followups"])
     if c["kind"] == "session":
@@ -1814,9 +2179,91 @@ def oracle_session(c, o):
     return None
 
 
+def agree_parts(c, o, m):
+    if "error" in o or "fit" not in o or "error" in o["fit"]:
+        return None
+    mf = m.get("fit")
+    if mf is None:
+        return "model returned no fit: " + str(m)[:200]
+    if "error" in mf:
+        return None if _skip(mf["error"]) else f"fit: implementation ok vs model {mf['error']}"
+    if len(mf["parts"]) != len(o["fit"]["parts"]):
+        return f"fit: {len(o['fit']['parts'])} parts vs model {len(mf['parts'])}"
+    for j, (ip, mp) in enumerate(zip(o["fit"]["parts"], mf["parts"])):
+        w = _cmp_matrix(ip, mp, f"fit, part {j}") or _cmp_spec(ip["spec"], mp["spec"], f"fit, part {j}")
+        if w:
+            return w
+    for k, (fu, io, mo) in enumerate(zip(c["followups"], o["replays"], m["replays"])):
+        what = f"follow-up {k} (rows {fu['rows']}, {'joint' if io['part'] is None else 'part ' + str(io['part'])}{', pickled' if fu['pickle'] else ''})"
+        if "error" in mo and _skip(mo["error"]):
+            continue
+        if "error" in io or "error" in mo:
+            if io.get("error") != mo.get("error"):
+                return f"{what}: implementation {io.get('error', 'ok')} ({io.get('msg', '')[:100]}) vs model {mo.get('error', 'ok')}"
+            continue
+        idx = range(len(io["parts"])) if io["part"] is None else [io["part"]]
+        for j, ip, mp in zip(idx, io["parts"], mo["parts"]):
+            w = _cmp_matrix(ip, mp, f"{what}, part {j}") or _cmp_spec(o["fit"]["parts"][j]["spec"], mp["spec"], f"{what}, part {j} spec afterwards")
+            if w:
+                return w
+    return None
+
+
+def oracle_parts(c, o):
+    if "error" in o or "fit" not in o or "error" in o["fit"]:
+        return None
+    parts = o["fit"]["parts"]
+    if any(not math.isfinite(v) for p in parts for r in p["rows"] for v in r):
+        return None
+    if any(p["shape"][0] != len(c["train"]) for p in parts):
+        return None
+    # every part records a state for every stateful call of its own factors, nested ones included
+    for j, p in enumerate(parts):
+        missing = [k for k in p["expected_keys"] if k not in p["tstate_keys"]]
+        if missing:
+            return (f"part {j} of `{c['formula']}`: its spec records no transform state for {missing} although its factors contain "
+                    f"these stateful calls (recorded keys: {p['tstate_keys']})")
+    expected = {}
+    for k, i in enumerate(c["train"]):
+        expected.setdefault(i, [p["rows"][k] for p in parts])
+    for i, r in enumerate(o["ref"]):
+        if "error" in r:
+            return f"the one-row frame of pool row {i} raised {r['error']}: {r.get('msg', '')}"
+        if i in expected:
+            for j, (rp, ex) in enumerate(zip(r["parts"], expected[i])):
+                if not _rows_close(rp["row"], ex):
+                    return (f"pool row {i} is a training row: part {j} of its one-row replay is {rp['row']}, its row in the fitted "
+                            f"part is {ex}")
+        else:
+            expected[i] = [rp["row"] for rp in r["parts"]]
+    for k, (fu, rp) in enumerate(zip(c["followups"], o["replays"])):
+        what = f"follow-up {k} on pool rows {fu['rows']} ({'joint specs' if rp['part'] is None else 'spec of part ' + str(rp['part']) + ' alone'}{', pickled' if fu['pickle'] else ''})"
+        if "error" in rp:
+            return f"{what} raised {rp['error']}: {rp.get('msg', '')[:120]}"
+        idx = list(range(len(rp["parts"]))) if rp["part"] is None else [rp["part"]]
+        for j, pp in zip(idx, rp["parts"]):
+            if pp["names"] != parts[j]["names"]:
+                return f"{what}: part {j} has column names {pp['names']}, fitted {parts[j]['names']}"
+            if pp["shape"][0] != len(fu["rows"]):
+                return f"{what}: part {j} has {pp['shape'][0]} rows for {len(fu['rows'])} input rows"
+            for q, i in enumerate(fu["rows"]):
+                if not _rows_close(pp["rows"][q], expected[i][j]):
+                    return (f"{what}: part {j}, output row {q} (pool row {i}) is {pp['rows'][q]} but "
+                            f"{'its row in the fitted part' if i in c['train'] else 'the output of its one-row frame'} is {expected[i][j]}"
+                            f" [the statistics recorded at fit time are not the ones applied]")
+            missing = [kk for kk in pp["expected_keys"] if kk not in pp["tstate_keys"]]
+            if missing:
+                return f"{what}: the spec attached to part {j} has no state for {missing}"
+    if not all(o.get("state_unchanged", [True])):
+        return "the recorded state of a part's spec changed during the follow-ups"
+    return None
+
+
 def agree(c, o, m):
     if "driver_error" in m:
         return "driver: " + m["driver_error"][:300]
+    if c["kind"] == "parts":
+        return None if "harness_exception" in o else agree_parts(c, o, m)
     if c["kind"] == "session":
         if "harness_exception" in o:
             return None
@@ -1950,6 +2397,8 @@ def oracle(c, o):
         return oracle_dict(c, o)
     if c["kind"] == "session":
         return oracle_session(c, o)
+    if c["kind"] == "parts":
+        return oracle_parts(c, o)
     if c["kind"] == "sparse":
         # one column: every follow-up row equals the fitted row; the recorded state does not change
         fit = o["fit"]
@@ -2015,6 +2464,17 @@ def oracle(c, o):
                 src = "its row in the fitted matrix" if i in train else "the output of its one-row frame"
                 return (f"{what}: output row {j} (pool row {i}) is {rp['rows'][j]} but {src} is {expected[i]}"
                         + (" [replay of the training data does not reproduce the matrix]" if fu["rows"] == train else ""))
+        if "twin" in rp:
+            tw = rp["twin"]
+            if "error" in tw:
+                return f"{what}: the same cell values given as plain text raised {tw['error']}"
+            if tw["names"] != rp["names"]:
+                return f"{what}: column names {rp['names']} but {tw['names']} when the same cell values are given as plain text"
+            for j, (ra, rb) in enumerate(zip(rp["rows"], tw["rows"])):
+                if not _rows_close(ra, rb):
+                    return (f"{what}: with the categorical column(s) re-declared {fu['redeclare']} output row {j} is {ra}, but the "
+                            f"same cell values given as plain text give {rb} [a row must depend on its cell values and the "
+                            f"recorded state only, not on the order in which the dtype declares its categories]")
         if not rp.get("spec_same", True) and not fu.get("output"):
             return f"{what}: the spec attached to the result differs from the fitted spec"
     if not o.get("state_unchanged", True):
@@ -2041,7 +2501,8 @@ LEVEL_TEXT = (
     "row depends on its input row and the recorded state only), column names are the recorded ones, a replay on the "
     "training frame reproduces the fitted matrix and leaves the spec unchanged (so any sequence of follow-ups behaves "
     "like independent replays), every call of any history on one materializer object — failed calls included — is the "
-    "pure function of its own spec, and __getstate__ keeps exactly the dataclass fields, on which alone a replay "
+    "pure function of its own spec, every part of a structured fit (`lhs ~ a | b`) carries the state of all its stateful "
+    "calls, nested ones included, and replays on its own, and __getstate__ keeps exactly the dataclass fields, on which alone a replay "
     "depends. Which transform with which arguments a call denotes is computed by the model from the call as written, "
     "by Python's argument binding against the live signatures (Gen/StatefulTable.lean, regenerated every run). The "
     "model is tied to the code by a differential correspondence on every run."
